@@ -410,7 +410,7 @@ func (f *FS) NotePreexisting() {
 // CopyTree copies the native directory tree to a new temporary directory and returns a file system rooted
 // there (the base on which journal prefixes are replayed).
 func (f *FS) CopyTree() *FS {
-	d, err := os.MkdirTemp("", "verif-base-")
+	d, err := os.MkdirTemp(tmpBase, "verif-base-")
 	if err != nil {
 		panic(err)
 	}
